@@ -46,7 +46,7 @@ def check_case(case):
         return [{"clause": "no-exception", "detail": "%s: %s" % (type(e).__name__, e)}], {}
     exp = refs.rodrigues(theta, axis, vec)
     vlen = math.sqrt(sum(c * c for c in vec))
-    tol = RTOL * vlen + 1e-12
+    tol = RTOL * vlen + (1e-12 if vlen >= 1e-3 else 0.0)       # purely relative for very short vectors
     err = max(abs(g - e) for g, e in zip(got, exp))
     if not all(math.isfinite(g) for g in got) or err > tol:
         # name the invariant
@@ -75,7 +75,35 @@ def check_case(case):
     return violations, info
 
 
+def reuse_case(case):
+    """The same axis and vector objects handed to several calls: every call is a function of its arguments' values,
+    and the arguments are left as they were."""
+    from propka.vector_algebra import Vector, rotate_vector_around_an_axis
+    axis, vec = tuple(case["axis"]), tuple(case["vec"])
+    a, v0 = Vector(*axis), Vector(*vec)
+    out = []
+    vlen = math.sqrt(sum(c * c for c in vec))
+    tol = RTOL * vlen + (1e-12 if vlen >= 1e-3 else 0.0)
+    for i, theta in enumerate(case["thetas"]):
+        r = rotate_vector_around_an_axis(theta, a, v0)
+        exp = refs.rodrigues(theta, axis, vec)
+        err = max(abs(g - e) for g, e in zip((r.x, r.y, r.z), exp))
+        if err > tol:
+            out.append({"clause": "rodrigues/reused-objects", "detail": "call %d of %d with the same axis and vector "
+                        "objects: theta=%r axis=%r vec=%r got=%r expected=%r" % (
+                            i + 1, len(case["thetas"]), theta, axis, vec, (r.x, r.y, r.z), exp)})
+            break
+        if (a.x, a.y, a.z) != axis or (v0.x, v0.y, v0.z) != vec:
+            out.append({"clause": "arguments-unchanged", "detail": "after call %d: axis %r -> %r, vector %r -> %r" % (
+                i + 1, axis, (a.x, a.y, a.z), vec, (v0.x, v0.y, v0.z))})
+            break
+    return out, {"nontrivial": len(case["thetas"]) > 1, "labels": ["reused-objects"],
+                 "sample": {"thetas": case["thetas"], "axis": axis, "vec": vec}}
+
+
 def replay(case):
+    if "thetas" in case:
+        return reuse_case(case)[0]
     return check_case(case)[0]
 
 
@@ -92,7 +120,8 @@ def _strategy():
     scale = st.sampled_from([1.0] * 6 + AXIS_SCALES)
     axis = st.tuples(compz, compz, compz, scale).filter(lambda a: any(c != 0 for c in a[:3])).map(
         lambda a: (a[0] * a[3], a[1] * a[3], a[2] * a[3]))
-    vec = st.tuples(compz, compz, compz)
+    vscale = st.sampled_from([1.0] * 8 + [1e-12, 1e-9, 1e-6, 1e6, 1e9])     # the map is linear in the vector
+    vec = st.tuples(compz, compz, compz, vscale).map(lambda a: (a[0] * a[3], a[1] * a[3], a[2] * a[3]))
     return st.tuples(theta, axis, vec)
 
 
@@ -105,6 +134,16 @@ def run_shard(ctx):
 
     n = 60000 if ctx.tier == "quick" else 1500000
     ctx.hypothesis_stage("random-triples", _strategy(), body, n)
+
+    def reuse_body(t):
+        thetas, (_th, axis, vec) = t
+        case = {"thetas": list(thetas), "axis": list(axis), "vec": list(vec)}
+        violations, info = reuse_case(case)
+        ctx.account(case, violations, info)
+
+    ctx.hypothesis_stage("reused-argument-objects",
+                         st.tuples(st.lists(st.sampled_from(ANGLES), min_size=2, max_size=4), _strategy()), reuse_body,
+                         6000 if ctx.tier == "quick" else 100000)
 
     # enumeration of the zero-component families with all sign patterns
     patterns = [p for p in itertools.product((-1, 0, 1), repeat=3) if any(p)]
